@@ -215,3 +215,6 @@ Class Has_measurement (A : Type) := f_measurement : A -> Measurement.
 #[export] Instance ru_has_measurement : Has_measurement ReportUnit := ru_measurement.
 #[export] Instance cc_has_htm : Has_hard_to_maintain CheckCounts := cc_hard_to_maintain.
 #[export] Instance cc_has_unm : Has_unmaintainable CheckCounts := cc_unmaintainable.
+
+(* ceil(n / d) for d > 0 (exact rational ceiling) *)
+Definition cdiv (n d : Z) : Z := - ((- n) / d).
